@@ -6,6 +6,7 @@
 -/
 import DuckModel.Sdk.Flow
 import DuckModel.Spec.TreeSimple
+import DuckModel.Spec.TreeCmdCond
 import DuckModel.Lemmas.SimLemmas
 import DuckModel.Lemmas.SimMain
 import DuckModel.Props.C03
@@ -44,6 +45,39 @@ theorem C04_machine_fuel_mono (is : List Instruction) (vars : Vars) (s : Sdk) (f
     runLoop (sdkSem (evalInstrsF fuel) is) is (labelTable is) (fun _ _ => false) (fuel + extra)
           { line := 0, polls := 0, vars := vars, st := s } = (rs, e) :=
   C03_fuel_monotone _ is (labelTable is) _ fuel extra _ rs e h he
+
+/-! ### command conditions (the simple2 fragment, Spec/TreeCmdCond.lean) -/
+
+/-- conditions may also be COMMAND conditions — `equals …`, `lt …`, `emit …` (always falsy, logs its
+    arguments) and `not` followed by one of those or by a value condition — which the interpreter
+    evaluates by re-serialising the bound values, parsing the text again and running the single
+    instruction in the nested mini-runner.  Hypothesis `CondArgsSafe`: every time a condition is
+    evaluated in the tree run, the bound arguments of its command survive that round trip
+    (`Reser.Safe`, `Reser.positionOK`, see C09); nothing is asked of value conditions. -/
+theorem C04_sim_cmdcond_partial (b : Block) (vars : Vars) (fuelT : Nat) (t' : TState)
+    (hwf : b.wf = true) (hs : b.simple2 = true) (hsafe : CondArgsSafe fuelT b vars)
+    (h : execBlock (program b) fuelT b { vars := vars, sdk := {} } = .normal t') :
+    ∃ fuelM rs, interpRun fuelM (program b) vars {} = (rs, .reachedEnd) ∧
+      rs.vars = t'.vars ∧ rs.st.emitted = t'.sdk.emitted ∧ rs.st.handles = t'.sdk.handles :=
+  sim_program2 b vars fuelT t' hwf hs hsafe h
+
+/-- the fuel of the nested evaluator does not matter from 3 on for the conditions of the fragment
+    (tree and machine evaluate conditions with different nested fuel) -/
+theorem C04_nested_fuel_mono (cond : List Str) (vars : Vars) (is : List Instruction) (s : Sdk)
+    (hc : condSimple2 cond = true) (hsafe : condArgsSafe (bind vars (some cond)) = true)
+    (hf : s.fns = []) (f1 f2 : Nat) (h1 : 3 ≤ f1) (h2 : 3 ≤ f2) :
+    evalCondition (evalInstrsF f1) is (bind vars (some cond)) vars s =
+      evalCondition (evalInstrsF f2) is (bind vars (some cond)) vars s :=
+  cond_fuel_mono cond vars is s hc hsafe hf f1 f2 h1 h2
+
+/-- … and the restriction is needed: in the MODEL the fuel crash of an inner nested run is turned
+    into an ordinary error by `eval_condition` (and `not` then reports an error), so a run that
+    does not END in the fuel crash may still change with more fuel.  `not not true`: error with
+    nested fuel 2, `true` with nested fuel 3.  (An artefact of the fuel, not of the interpreter.) -/
+theorem C04_nested_fuel_crash_is_masked :
+    (evalCondition (evalInstrsF 2) [] ["not".toList, "not".toList, "true".toList] [] {}).1 = .error () ∧
+    (evalCondition (evalInstrsF 3) [] ["not".toList, "not".toList, "true".toList] [] {}).1 = .ok true :=
+  ⟨nnt_fuel2, nnt_fuel3⟩
 
 /-! ### the stages of the proof, as theorems about sub-fragments (all instances of `C04_sim_partial`;
     the restricting predicates are defined in Lemmas/SimMain.lean) -/
